@@ -1026,6 +1026,89 @@ static void lf_mutate(int kind, int mut, int seedno, vt_rng_t *rng, buf_t *res)
 	    }
 	}
 	break;
+    case M_VERCROSS:
+	{
+	    /* .vnacal only: keys and version numbers of OTHER versions of the
+	     * format -- "type:" and the current matrix keys in pre-release
+	     * files, "e:" in current ones, sets <-> calibrations, another
+	     * first line */
+	    static const char *const heads[] = {
+		"#VNACal 1.0", "#VNACal 2.0", "#VNACAL 2.0", "#VNACAL 3.0",
+		"#VNACal 0.2", "#VNACal 0.9", "#VNACal 9.9", "#VNACAL 9.9",
+		"#VNACal 1.7", "#VNACAL 2.9", "#VNACal -1.0",
+	    };
+	    static const char *const types[] = {
+		"T8", "U8", "TE10", "UE10", "T16", "U16", "UE14", "E12", "e12",
+	    };
+	    static const char *const mkeys[] = {
+		"ts: [\"+1 +0j\"]", "ti: [\"+0 +0j\"]", "tx: [\"+0 +0j\"]",
+		"tm: [\"+1 +0j\"]", "um: [\"+1 +0j\"]", "ui: [\"+0 +0j\"]",
+		"ux: [\"+0 +0j\"]", "us: [\"+1 +0j\"]",
+		"el: [[\"+0 +0j\"]]", "er: [[\"+1 +0j\"]]", "em: [[\"+0 +0j\"]]",
+		"e: [[[\"+0 +0j\", \"+1 +0j\", \"+0 +0j\"]]]", "e: []", "e: ~",
+	    };
+	    int how = vt_below(rng, 10);
+	    int anchor[MAXLINES], na = 0, pick;
+	    const char *want = how < 4 ? "rows:" : "f:";
+
+	    split_lines(b);
+	    /* lines after which a key of a set (rows:) or of a data entry
+	     * (f:) can be added at the same indentation */
+	    for (int i = 0; i < nlines; ++i) {
+		const char *s = b->p + lines_[i].off;
+		size_t n = lines_[i].len, j = 0;
+
+		while (j < n && (s[j] == ' ' || s[j] == '-'))
+		    ++j;
+		if (n - j >= strlen(want) && strncmp(s + j, want,
+			    strlen(want)) == 0)
+		    anchor[na++] = i;
+	    }
+	    pick = na > 0 ? anchor[vt_below(rng, na)] : -1;
+	    for (int i = 0; i < nlines; ++i) {
+		const char *s = b->p + lines_[i].off;
+		size_t n = lines_[i].len;
+
+		if (i == 0 && (how == 7 || how == 8 || vt_below(rng, 4) == 0)) {
+		    out_str(&o, heads[vt_below(rng,
+				(int)(sizeof(heads) / sizeof(*heads)))]);
+		    out_str(&o, "\n");
+		    continue;
+		}
+		if (how == 9) {
+		    /* sets <-> calibrations */
+		    if (n >= 5 && strncmp(s, "sets:", 5) == 0) {
+			out_str(&o, "calibrations:");
+			out_add(&o, s + 5, n - 5);
+			continue;
+		    }
+		    if (n >= 13 && strncmp(s, "calibrations:", 13) == 0) {
+			out_str(&o, "sets:");
+			out_add(&o, s + 13, n - 13);
+			continue;
+		    }
+		}
+		out_add(&o, s, n);
+		if (i == pick && how < 7) {
+		    size_t ind = 0;
+
+		    while (ind < n && (s[ind] == ' ' || s[ind] == '-'))
+			++ind;
+		    for (size_t q = 0; q < ind; ++q)
+			out_str(&o, " ");
+		    if (how < 4) {
+			out_str(&o, "type: ");
+			out_str(&o, types[vt_below(rng,
+				    (int)(sizeof(types) / sizeof(*types)))]);
+		    } else {
+			out_str(&o, mkeys[vt_below(rng,
+				    (int)(sizeof(mkeys) / sizeof(*mkeys)))]);
+		    }
+		    out_str(&o, "\n");
+		}
+	    }
+	}
+	break;
     case M_KWREPEAT:
 	{
 	    /* repeat a keyword / header line further down with its numeric
